@@ -410,6 +410,37 @@ pub fn c07(thorough: bool) -> Vec<Part> {
         big.max_outstanding_for_respond = 2;
         explore(&mut part, &big, 200_000, 60.0);
     }
+    {
+        // a request in flight, then a valid request and garbage in ONE segment (the valid one is
+        // dropped with the 400), close; late client reusing the descriptor; late answer
+        let mut seg = tagged_get(0, 1);
+        seg.extend_from_slice(b"BAD LINE\r\n");
+        let mut g0 = ClientCfg::adversary(vec![tagged_get(0, 0), seg]);
+        g0.reads = true;
+        g0.can_shut_rd = false;
+        g0.can_shut_wr = false;
+        let mut g1 = ClientCfg::adversary(vec![tagged_get(1, 0)]);
+        g1.reads = true;
+        g1.can_close = false;
+        g1.can_shut_rd = false;
+        g1.can_shut_wr = false;
+        let g = SrvCfg::base("C07", "request in flight, then valid request + garbage in one segment, close; late client reusing the descriptor", vec![g0, g1]);
+        explore(&mut part, &g, 300_000, 60.0);
+        // short writes with a further response queued behind the one in flight
+        let mut pair = tagged_get(0, 0);
+        pair.extend_from_slice(&tagged_get(0, 1));
+        let mut c0 = ClientCfg::adversary(vec![pair]);
+        c0.reads = true;
+        c0.partial_recv = true;
+        c0.can_close = false;
+        c0.can_shut_rd = false;
+        c0.can_shut_wr = false;
+        let mut sw = SrvCfg::base("C07", "pipelined pair answered with 9000-byte / 5-byte responses through a minimal SO_SNDBUF (a response queued behind one in flight)", vec![c0]);
+        sw.resp_sizes = vec![9000, 5];
+        sw.small_sndbuf = true;
+        sw.max_outstanding_for_respond = 2;
+        explore(&mut part, &sw, 300_000, 60.0);
+    }
     if part.violations.is_empty() {
         // long histories: a connection that closed with a request in flight is polled 40 / 300
         // more times before a newcomer is accepted and the stale request is answered
@@ -923,6 +954,14 @@ pub fn c04_server(thorough: bool) -> Part {
     cfg.closure_all = true;
     cfg.max_depth = if thorough { 14 } else { 12 };
     explore(&mut part, &cfg, if thorough { 3_000_000 } else { 300_000 }, if thorough { 1800.0 } else { 60.0 });
+    {
+        // a configured limit of zero is a limit like any other
+        let mut z = SrvCfg::base("C04", "limit 0 / 5 switched at any time, one client declaring 5 bytes and one declaring none", vec![mk(0), ClientCfg::well_behaved(vec![tagged_get(1, 0)])]);
+        z.limits = vec![0, 5];
+        z.closure_all = true;
+        z.max_depth = 11;
+        explore(&mut part, &z, 300_000, if thorough { 600.0 } else { 40.0 });
+    }
     // limits above the default: 60000 declared under 70000 is fine, 70001 is refused with (70000, 70001)
     let head = |c: usize, n: usize| vec![format!("PUT /c{}/r0 HTTP/1.1\r\nContent-Length: {}\r\n\r\n", c, n).into_bytes()];
     let mut cfg2 = SrvCfg::base("C04", "limit raised above the default (70000 / 51200): declared 60000 and 70001", vec![ClientCfg::well_behaved(head(0, 60000)), ClientCfg::well_behaved(head(1, 70001))]);
